@@ -14,6 +14,7 @@ import (
 	"github.com/taurusgroup/multi-party-sig/pkg/ecdsa"
 	"github.com/taurusgroup/multi-party-sig/pkg/math/curve"
 	"github.com/taurusgroup/multi-party-sig/pkg/party"
+	"github.com/taurusgroup/multi-party-sig/pkg/pool"
 	"github.com/taurusgroup/multi-party-sig/pkg/protocol"
 	"github.com/taurusgroup/multi-party-sig/pkg/taproot"
 	"github.com/taurusgroup/multi-party-sig/protocols/cmp"
@@ -68,6 +69,10 @@ type Session struct {
 
 	// Wrap lets an adversary engine wrap the start function of a party.
 	Wrap func(id party.ID, f protocol.StartFunc) protocol.StartFunc
+
+	// Pool is handed to the CMP / Doerner start functions (nil = everything on the calling goroutine, which is what the
+	// deterministic checks need; only the race-detector run of C17 uses a real pool).
+	Pool *pool.Pool
 }
 
 func (s *Session) TwoParty() bool {
@@ -105,17 +110,17 @@ func (s *Session) StartFunc(id party.ID) (f protocol.StartFunc, err error) {
 	case FrostSignTap:
 		f = frost.SignTaproot(s.FrostTap[id], s.IDs, s.Msg)
 	case CMPKeygen:
-		f = cmp.Keygen(Group, id, s.IDs, s.T, nil)
+		f = cmp.Keygen(Group, id, s.IDs, s.T, s.Pool)
 	case CMPRefresh:
-		f = cmp.Refresh(s.CMP[id], nil)
+		f = cmp.Refresh(s.CMP[id], s.Pool)
 	case CMPSign:
-		f = cmp.Sign(s.CMP[id], s.IDs, s.Msg, nil)
+		f = cmp.Sign(s.CMP[id], s.IDs, s.Msg, s.Pool)
 	case CMPPresign:
-		f = cmp.Presign(s.CMP[id], s.IDs, nil)
+		f = cmp.Presign(s.CMP[id], s.IDs, s.Pool)
 	case CMPPresignOnline:
-		f = cmp.PresignOnline(s.CMP[id], s.Pre[id], s.Msg, nil)
+		f = cmp.PresignOnline(s.CMP[id], s.Pre[id], s.Msg, s.Pool)
 	case CMPPresignFull:
-		f = presign.StartPresign(s.CMP[id], s.IDs, s.Msg, nil)
+		f = presign.StartPresign(s.CMP[id], s.IDs, s.Msg, s.Pool)
 	case DoernerKeygen:
 		f = doerner.Keygen(Group, id == s.IDs[0], id, s.other(id), nil)
 	case DoernerRefresh:
